@@ -24,7 +24,7 @@ func init() {
 			"(OWN-doc) normalisation writes only AST node types that the clone functions allocate, on an operation obtained from cloneOperation, and never follows a fragment spread into a (shared) fragment definition.",
 		NotDecided: "that the normalised document executes like the original for all literal shapes (enum literals extracted as internal values and repeated fields getting distinct synthetic variables are known behavioural defects named in the property text — they are not structural and not decided here); LRU recency order; hit/miss counts; hash collisions of the 64-bit FNV key.",
 	}
-	register(&core.Rule{Name: "C06/TAB-fingerprint", Props: []string{"C06"}, Min: 20,
+	register(&core.Rule{Name: "C06/TAB-fingerprint", Props: []string{"C06", "C12"}, Min: 20,
 		Doc: "fingerprint reads every field of every AST type it handles; type switches closed", Run: c06Fingerprint})
 	register(&core.Rule{Name: "C06/FLOW-delimit", Props: []string{"C06"}, Min: 1,
 		Doc: "string contents are length-prefixed in the key encoding", Run: c06Delimit})
@@ -40,11 +40,11 @@ func init() {
 
 // fingerprint exceptions: field -> reason it need not be hashed in the method handling its type.
 var fingerprintExceptions = map[string]string{
-	"ast.OperationDefinition.Name":                "keyed through the operationName parameter, which is part of the cache key",
-	"ast.FragmentDefinition.Name":                 "written at the spread site that names the fragment",
-	"ast.FragmentDefinition.Operation":            "constant for every fragment definition",
-	"ast.FragmentDefinition.VariableDefinitions":  "never produced by this grammar",
-	"ast.Directive.Kind":                          "",
+	"ast.OperationDefinition.Name":               "keyed through the operationName parameter, which is part of the cache key",
+	"ast.FragmentDefinition.Name":                "written at the spread site that names the fragment",
+	"ast.FragmentDefinition.Operation":           "constant for every fragment definition",
+	"ast.FragmentDefinition.VariableDefinitions": "never produced by this grammar",
+	"ast.Directive.Kind":                         "",
 }
 
 func fingerprintNodes(c *core.Ctx) ([]ast.Node, *types.Info) {
@@ -669,4 +669,77 @@ func c06OwnDoc(c *core.Ctx, r *core.Reporter) {
 	r.Check(read["ast.FragmentDefinition"] == nil, "normaliser/no-fragment-definitions", nd.Pos(),
 		"the normaliser never reads a fragment definition (spreads are left as they are)",
 		"the normaliser reads ast.FragmentDefinition fields: it would rewrite fragment definitions, which are shared by reference with the original document")
+}
+
+func init() {
+	register(&core.Rule{Name: "C06/FLOW-wrappers", Props: []string{"C06"}, Min: 1,
+		Doc: "the key encoding of the two type wrappers is unambiguous: not one prefix-only and one suffix-only", Run: c06Wrappers})
+}
+
+// c06Wrappers: writeType encodes List and NonNull around the encoding of the wrapped type. With two unary wrappers the
+// encoding is ambiguous exactly when one of them only writes before and the other only writes after the inner type
+// (a·(T·b) = (a·T)·b): `[Int!]` and `[Int]!` then get the same key and share a cache entry although they coerce
+// null elements / an omitted variable differently.
+func c06Wrappers(c *core.Ctx, r *core.Reporter) {
+	p, fd := c.FindDecl("", "fingerprintWriter.writeType")
+	if fd == nil {
+		r.Unknown("fingerprintWriter.writeType/wrappers", token.NoPos, "not found")
+		return
+	}
+	info := p.TypesInfo
+	self := info.Defs[fd.Name]
+	sws := core.TypeSwitches(info, fd.Body, false)
+	if len(sws) != 1 {
+		r.Unknown("fingerprintWriter.writeType/wrappers", fd.Pos(), "expected one type switch")
+		return
+	}
+	shape := map[string][2]bool{} // wrapper -> (writes before, writes after) the recursive call
+	for _, kind := range []string{"List", "NonNull"} {
+		cl := sws[0].Clauses[kind]
+		if cl == nil {
+			r.Bad("fingerprintWriter.writeType/wrappers", fd.Pos(), "writeType has no arm for *ast.%s: the wrapper is not part of the key", kind)
+			return
+		}
+		rec := -1
+		var writes []int
+		for i, st := range cl.Body {
+			ast.Inspect(st, func(n ast.Node) bool {
+				call, ok := n.(*ast.CallExpr)
+				if !ok {
+					return true
+				}
+				f := core.CalleeObj(info, call)
+				switch {
+				case f != nil && types.Object(f) == self:
+					rec = i
+				case f != nil && strings.HasPrefix(f.Name(), "write"):
+					writes = append(writes, i)
+				}
+				return true
+			})
+		}
+		if rec < 0 {
+			r.Bad("fingerprintWriter.writeType/wrappers", cl.Pos(), "the *ast.%s arm of writeType does not encode the wrapped type", kind)
+			return
+		}
+		var sh [2]bool
+		for _, i := range writes {
+			if i < rec {
+				sh[0] = true
+			}
+			if i > rec {
+				sh[1] = true
+			}
+		}
+		if !sh[0] && !sh[1] {
+			r.Bad("fingerprintWriter.writeType/wrappers", cl.Pos(), "the *ast.%s arm of writeType writes nothing besides the wrapped type: %s and T get the same key", kind, map[string]string{"List": "[T]", "NonNull": "T!"}[kind])
+			return
+		}
+		shape[kind] = sh
+	}
+	l, n := shape["List"], shape["NonNull"]
+	ambiguous := (l[0] && !l[1] && !n[0] && n[1]) || (n[0] && !n[1] && !l[0] && l[1])
+	r.Check(!ambiguous, "fingerprintWriter.writeType/wrappers", fd.Pos(),
+		fmt.Sprintf("List writes before=%v after=%v, NonNull writes before=%v after=%v: nesting order is recoverable from the key", l[0], l[1], n[0], n[1]),
+		"one type wrapper is encoded only before and the other only after the wrapped type: `[T!]` and `[T]!` produce the same key, so two operations that differ in where `!` sits relative to a list share a cache entry (and one is answered with the other's plan)")
 }
